@@ -77,6 +77,8 @@ def gen_history(rng, with_timeout):
         elif kind == "iter":
             c["iter_fail_at"] = rng.randrange(n)
             c["exc"] = rng.choice(["Boom", "Boom", "BoomBase", "SystemExit"])
+        elif kind == "iterinit":
+            c["where"] = rng.choice(["__iter__", "__len__"])
         elif kind == "never":
             c["hold"] = rng.randrange(n)
         calls.append(c)
@@ -84,11 +86,23 @@ def gen_history(rng, with_timeout):
 
 
 class RaisingIterable:
-    def __init__(self, exc):
+    """an input that fails before its first item: in __iter__, or already in __len__ (which Parallel asks for first)"""
+
+    def __init__(self, exc, where="__iter__"):
         self.exc = exc
+        if where == "__len__":
+            self.__class__ = RaisingLen
 
     def __iter__(self):
         raise self.exc
+
+
+class RaisingLen(RaisingIterable):
+    def __len__(self):
+        raise self.exc
+
+    def __iter__(self):
+        return iter(())
 
 
 def run_clog(case, ctx):
@@ -206,7 +220,8 @@ def run_scripted(sid, ctx):
         src = Src(n, lambda i: delayed(task)(i, tag, c.get("exc", "Boom") if i in c.get("fail_at", ()) else False), trace, widen=0,
                   fail_at=c.get("iter_fail_at"), fail_exc=xc("iter", tag, c.get("iter_fail_at")))
         if c["kind"] == "iterinit":
-            src = RaisingIterable(Boom("iter", tag, -1))     # the input's __iter__ itself raises
+            src = RaisingIterable(Boom("iter", tag, -1), c.get("where", "__iter__"))     # the input's __iter__ (or __len__) itself raises
+            ctx.count("inputs_failing_in:" + c.get("where", "__iter__"))
         res = {}
 
         def go():
